@@ -385,7 +385,7 @@ func (c *Ctx) typeFacts(term string, t types.Type, alloc string) string {
 	case *types.Pointer, *types.Map, *types.Chan:
 		// map and channel values denote runtime objects that are never part of
 		// (and never contain) a user-visible struct, array or variable
-		kind := fmt.Sprintf("(not (ismapobj (pobj %s)))", term)
+		kind := fmt.Sprintf("(and (not (ismapobj (pobj %s))) (not (islocalobj (pobj %s))))", term, term)
 		if _, isPtr := u.(*types.Pointer); !isPtr {
 			kind = fmt.Sprintf("(ismapobj (pobj %s))", term)
 		}
@@ -394,7 +394,7 @@ func (c *Ctx) typeFacts(term string, t types.Type, alloc string) string {
 		}
 		return fmt.Sprintf("(or (= %s nil) (and (< (pobj %s) %s) %s))", term, term, alloc, kind)
 	case *types.Slice:
-		f := fmt.Sprintf("(and (<= 0 (soff %s)) (<= 0 (slen_ %s)) (<= (slen_ %s) (scap %s)) (<= (scap %s) 9223372036854775807) (=> (= (sbase %s) nil) (= %s nilslice)) (or (= (sbase %s) nil) (not (ismapobj (pobj (sbase %s)))))", term, term, term, term, term, term, term, term, term)
+		f := fmt.Sprintf("(and (<= 0 (soff %s)) (<= 0 (slen_ %s)) (<= (slen_ %s) (scap %s)) (<= (scap %s) 9223372036854775807) (=> (= (sbase %s) nil) (= %s nilslice)) (or (= (sbase %s) nil) (and (not (ismapobj (pobj (sbase %s)))) (not (islocalobj (pobj (sbase %s))))))", term, term, term, term, term, term, term, term, term, term)
 		if alloc != "" {
 			f += fmt.Sprintf(" (or (= (sbase %s) nil) (< (pobj (sbase %s)) %s))", term, term, alloc)
 		}
